@@ -485,6 +485,7 @@ def stepLine (st : St) (line : String) : St × String :=
          | none, some (_, tag) => ({ st with sorter := none }, out3 s!"err io {tag}")
          | some _, some _ => ({ st with sorter := none }, out3 "err merge")  -- never generated together
        | .error e => ({ st with sorter := none }, out3 (fmtSErr e)))
+    | none, _, _ => (st, out3 "dead")
     | _, _, _ => (st, out3 "bad-op")
   | "sfinish" :: _ =>
     match st.sorter with
@@ -505,7 +506,7 @@ def stepLine (st : St) (line : String) : St × String :=
                | some l => "ok " ++ fmtList l
                | none => "?"))
        | .error e => ({ st with sorter := none }, out3 (fmtSErr e)))
-    | none => (st, out3 "bad-op")
+    | none => (st, out3 "dead")
   | [mcmd, mfName, failAt] =>
     if mcmd ≠ "merge" ∧ mcmd ≠ "mergew" ∧ mcmd ≠ "snew" then (st, out3 "bad-op") else
     if mcmd = "snew" then
